@@ -29,9 +29,9 @@ def endsWith (s p : List Char) : Bool := p.isSuffixOf s
 
 /-- `s.partition(c)` for a one-character separator: (before, found, after) -/
 def partition (c : Char) (s : List Char) : List Char × Bool × List Char :=
-  match s.span (· != c) with
-  | (a, []) => (a, false, [])
-  | (a, _ :: b) => (a, true, b)
+  match s.dropWhile (· != c) with
+  | [] => (s.takeWhile (· != c), false, [])
+  | _ :: b => (s.takeWhile (· != c), true, b)
 
 /-- `s.split(c)` (one-character separator, no limit) -/
 def split (c : Char) (s : List Char) : List (List Char) := s.splitOn c
